@@ -375,6 +375,11 @@ def Expr.ok : Expr → Prop
   | .lam n bcc _ _ body b a => solidT n ∧ cm bcc = [] ∧ body.ok ∧ TrivOk b ∧ TrivOk a
   | .un op e _ bt b a => (solidT op ∧ op ≠ ['+', '+']) ∧ e.ok ∧ cm bt = [] ∧ TrivOk b ∧ TrivOk a
   | .bin op l r _ _ b a => solidT op ∧ l.ok ∧ r.ok ∧ TrivOk b ∧ TrivOk a
+  -- `if` / `?` from well-formed trees: the interstitial lists hold layout markers only
+  | .ite c t e _ aic _ btc _ atc _ bec _ aec _ b a =>
+    c.ok ∧ t.ok ∧ e.ok ∧ cm aic = [] ∧ cm btc = [] ∧ atc = [] ∧ cm bec = [] ∧ aec = [] ∧ TrivOk b ∧ TrivOk a
+  | .has e attrs _ _ bq aq b a =>
+    e.ok ∧ attrs ≠ [] ∧ (∀ x ∈ attrs, solidT x) ∧ cm bq = [] ∧ cm aq = [] ∧ TrivOk b ∧ TrivOk a
 def allOk : List Expr → Prop
   | [] => True
   | e :: rest => e.ok ∧ allOk rest
@@ -412,6 +417,10 @@ def Expr.lexOut : Expr → Bool → List Lex
   | .lam n _ _ _ body b a, na => cm b ++ [.tok n, .tok [':']] ++ body.lexOut false ++ (if na then [] else cm a)
   | .un op e _ _ b a, na => cm b ++ [.tok op] ++ e.lexOut false ++ (if na then [] else cm a)
   | .bin op l r _ _ b a, na => cm b ++ l.lexOut false ++ [.tok op] ++ r.lexOut false ++ (if na then [] else cm a)
+  | .ite c t e _ _ _ _ _ _ _ _ _ _ _ b a, na =>
+    cm b ++ [.tok kwIf] ++ c.lexOut false ++ [.tok kwThen] ++ t.lexOut false ++ [.tok kwElse] ++ e.lexOut false ++
+      (if na then [] else cm a)
+  | .has e attrs _ _ _ _ b a, na => cm b ++ e.lexOut false ++ [.tok ['?']] ++ attrLex0 attrs ++ (if na then [] else cm a)
 def lexOutAll : List Expr → List Lex
   | [] => []
   | e :: rest => e.lexOut false ++ lexOutAll rest
@@ -539,6 +548,8 @@ theorem ok_after {e : Expr} (h : e.ok) : TrivOk e.after := by
   | lam n c g k bd b a => exact h.2.2.2.2
   | un o e g bt b a => exact h.2.2.2.2
   | bin o l r x y b a => exact h.2.2.2.2
+  | ite c t e cg aic aig btc btg atc tg bec beg aec eg b a => exact h.2.2.2.2.2.2.2.2.2
+  | has e ats lg rg bq aq b a => exact h.2.2.2.2.2.2
 
 theorem ok_before {e : Expr} (h : e.ok) : TrivOk e.before := by
   cases e with
@@ -555,6 +566,8 @@ theorem ok_before {e : Expr} (h : e.ok) : TrivOk e.before := by
   | lam n c g k bd b a => exact h.2.2.2.1
   | un o e g bt b a => exact h.2.2.2.1
   | bin o l r x y b a => exact h.2.2.2.1
+  | ite c t e cg aic aig btc btg atc tg bec beg aec eg b a => exact h.2.2.2.2.2.2.2.2.1
+  | has e ats lg rg bq aq b a => exact h.2.2.2.2.2.1
 
 theorem leafBefore_nil' (k : LeafKind) (t : Text) (i : Nat) (inl : Bool) : leafBefore k t [] i inl = [] := by
   unfold leafBefore; split
@@ -609,6 +622,12 @@ theorem rebuildAP_indent_split {e : Expr} (hok : e.ok) (h : e.before = []) (na :
   | bin o l r x y b a =>
     simp only [Expr.before] at h; subst h
     simp [Expr.rebuildAP, addTriviaP, fmtP, fmtGoP, indentP]
+  | ite c t e cg aic aig btc btg atc tg bec beg aec eg b a =>
+    simp only [Expr.before] at h; subst h
+    simp [Expr.rebuildAP, addTriviaP, fmtP, fmtGoP, indentP]
+  | has e ats lg rg bq aq b a =>
+    simp only [Expr.before] at h; subst h
+    simp [Expr.rebuildAP, addTriviaP, fmtP, fmtGoP, indentP]
   | un o e g bt b a =>
     simp only [Expr.before] at h; subst h
     have hne : (o == ['+', '+']) = false := by
@@ -632,6 +651,31 @@ theorem attrP_lex : ∀ (attrs : List Text), attrs ≠ [] → (∀ x ∈ attrs, 
     · simp only [attrP, attrLex, lexOf_tok] at ih ⊢
       rw [ih.1]
     · exact solid_tokc '.' (by decide) (solid_cons (p := FP.tok a) (hs a (List.mem_cons_self ..)) ih.2)
+
+/-- the tokens of `a₁.a₂.….aₙ` -/
+theorem attrP_lex0 : ∀ (attrs : List Text), attrs ≠ [] → (∀ x ∈ attrs, solidT x) →
+    lexOf (attrP attrs) = attrLex0 attrs ∧ Solid (attrP attrs)
+  | [], h, _ => absurd rfl h
+  | [a], _, hs => ⟨by simp [attrP, attrLex0, attrLex], solid_tok (hs a (List.mem_cons_self ..))⟩
+  | a :: b :: rest, _, hs => by
+    have ih := attrP_lex (b :: rest) (by simp) (fun x hx => hs x (List.mem_cons_of_mem _ hx))
+    refine ⟨?_, solid_cons (p := FP.tok a) (hs a (List.mem_cons_self ..)) ih.2⟩
+    simp only [attrP, attrLex0, lexOf_tok] at ih ⊢
+    rw [ih.1]
+
+/-- `addTriviaP_lex` in the shape the expression cases use it -/
+theorem addTriviaP_lex' {before after : List Trivia} {core : List FP} (hb : TrivOk before) (ha : TrivOk after) (na : Bool)
+    {L : List Lex} (hc : lexOf core = L ∧ Solid core) (i : Nat) (b : Bool) (R : List Lex)
+    (hR : R = cm before ++ L ++ (if na = true then [] else cm after)) :
+    lexOf (addTriviaP before (if na = true then [] else after) core i b) = R ∧
+    Solid (addTriviaP before (if na = true then [] else after) core i b) := by
+  have := addTriviaP_lex hb (ite_nil_ok na ha) hc.2 i b
+  refine ⟨?_, this.2⟩
+  rw [this.1, hc.1, hR, cm_ite_nil]
+
+theorem solidT_kwIf : solidT kwIf := ⟨by simp [kwIf], by simp [kwIf, endsWithNL]⟩
+theorem solidT_kwThen : solidT kwThen := ⟨by simp [kwThen], by simp [kwThen, endsWithNL]⟩
+theorem solidT_kwElse : solidT kwElse := ⟨by simp [kwElse], by simp [kwElse, endsWithNL]⟩
 
 /-- the four layouts of a binary expression: left, separator, operator, separator, right -/
 theorem binCoreP_shape (l ro ri : List FP) (op : Text) (ogl rgl i : Nat) :
@@ -798,6 +842,8 @@ theorem rebuildAP_lex : (e : Expr) → e.ok → ∀ (na : Bool) (i : Nat) (b : B
       | lam n c g k bd b a => exact hv.2.2.2.2
       | un o e g bt b a => exact hv.2.2.2.2
       | bin o l r x y b a => exact hv.2.2.2.2
+      | ite c t e cg aic aig btc btg atc tg bec beg aec eg b a => exact hv.2.2.2.2.2.2.2.2.2
+      | has e ats lg rg bq aq b a => exact hv.2.2.2.2.2.2
     have hbt := bindingTailP_lex (trivOk_append hva (ite_nil_ok na ha)) i
     have hi := indentP_lex i b
     simp only [Expr.rebuildAP, Expr.lexOut]
@@ -1040,6 +1086,34 @@ theorem rebuildAP_lex : (e : Expr) → e.ok → ∀ (na : Bool) (i : Nat) (b : B
       hb (ite_nil_ok na ha) (solid_append ihl.2 (solid_wsc _ (solid_cons (p := FP.tok op) hop (solid_wsc _ hRl.2)))) i b
     refine ⟨?_, hatp.2⟩
     rw [hatp.1]; simp [ihl.1, hRl.1, cm_ite_nil]
+  | .ite cond thn els cg aic aig btc btg atc tg bec beg aec eg before after, hok, na, i, b => by
+    obtain ⟨hc, ht, he, _, _, _, _, _, hb, ha⟩ := hok
+    have ihc := rebuildAP_lex cond hc false
+    have iht := rebuildAP_lex thn ht false
+    have ihe := rebuildAP_lex els he false
+    have ihc1 : ∀ j bb, lexOf (cond.rebuildAP false j bb) = cond.lexOut false := fun j bb => (ihc j bb).1
+    have iht1 : ∀ j bb, lexOf (thn.rebuildAP false j bb) = thn.lexOut false := fun j bb => (iht j bb).1
+    have ihe1 : ∀ j bb, lexOf (els.rebuildAP false j bb) = els.lexOut false := fun j bb => (ihe j bb).1
+    simp only [Expr.rebuildAP, Expr.lexOut]
+    refine addTriviaP_lex' hb ha na
+      (L := [Lex.tok kwIf] ++ cond.lexOut false ++ [Lex.tok kwThen] ++ thn.lexOut false ++ [Lex.tok kwElse] ++ els.lexOut false)
+      ⟨?_, ?_⟩ i b _ (by simp)
+    · simp [lexOf_ite, ihc1, iht1, ihe1]
+    · exact solid_append (solid_append (solid_append (solid_append (solid_append
+        (solid_cons (p := FP.tok kwIf) solidT_kwIf (solid_wsc _ solid_nil))
+        (solid_ite _ (ihc _ _).2 (ihc _ _).2))
+        (solid_wsc _ (solid_cons (p := FP.tok kwThen) solidT_kwThen (solid_wsc _ solid_nil))))
+        (solid_ite _ (iht _ _).2 (iht _ _).2))
+        (solid_wsc _ (solid_cons (p := FP.tok kwElse) solidT_kwElse (solid_wsc _ solid_nil))))
+        (solid_ite _ (ihe _ _).2 (ihe _ _).2)
+  | .has expr attrs lg rg bq aq before after, hok, na, i, b => by
+    obtain ⟨he, hne, hat, _, _, hb, ha⟩ := hok
+    have ihe := rebuildAP_lex expr he false i true
+    have hap := attrP_lex0 attrs hne hat
+    simp only [Expr.rebuildAP, Expr.lexOut]
+    refine addTriviaP_lex' hb ha na (L := expr.lexOut false ++ [Lex.tok ['?']] ++ attrLex0 attrs) ⟨?_, ?_⟩ i b _ (by simp)
+    · simp [ihe.1, hap.1]
+    · exact solid_append (solid_append ihe.2 (solid_wsc _ (solid_tokc '?' (by decide) (solid_wsc _ solid_nil)))) hap.2
 theorem rebuildAllP_lex : (es : List Expr) → allOk es → ∀ (i : Nat) (b : Bool),
     ((rebuildAllP es i b).map lexOf).flatten = lexOutAll es ∧ ∀ x ∈ rebuildAllP es i b, Solid x
   | [], _, i, b => ⟨rfl, by intro x hx; cases hx⟩
@@ -1067,6 +1141,8 @@ theorem previewP_lex : (e : Expr) → e.ok → ∀ (i : Nat) (p : List FP), e.pr
   | .lam .., _, i, p, h => by simp [Expr.previewP] at h
   | .un .., _, i, p, h => by simp [Expr.previewP] at h
   | .bin .., _, i, p, h => by simp [Expr.previewP] at h
+  | .ite .., _, i, p, h => by simp [Expr.previewP] at h
+  | .has .., _, i, p, h => by simp [Expr.previewP] at h
   | .list value ml inner before after, hok, i, p, h => by
     obtain ⟨hv, hin, hb, ha⟩ := hok
     have ih := fun i b => rebuildAllP_lex value hv i b
